@@ -47,3 +47,22 @@ Theorem C01_text_marshaler_cases_follow_their_json_twins :
   marshaler_twin_cases_differing = ["OpMarshalText"]%string /\ marshaler_twin_cases = 14%nat.
 Proof. split; reflexivity. Qed.
 
+
+(* ---- omitempty on a member whose type implements json.Marshaler / encoding.TextMarshaler (Model/Emptiness.v; the rules
+   per kind and the two interpreter cases are read from the source on every run, Gen/Twins.v; harness op c01.omits) ---- *)
+From GJ Require Import Model.Emptiness Proofs.EmptinessP.
+(* for EVERY value of every kind, as the first member and as a later one: the member is left out exactly when
+   encoding/json leaves it out; the one named case is a nil func / chan after the first member *)
+Theorem C01_omitempty_on_marshaler_members_is_encoding_json_s pos v : In (kind v) all_kinds -> coherent v = true ->
+  omits pos v = Some (std_empty v) \/ named_exception pos v = true.
+Proof. exact (marshaler_field_emptiness pos v). Qed.
+Print Assumptions C01_omitempty_on_marshaler_members_is_encoding_json_s.
+Theorem C01_omitempty_named_case_is_real_and_the_repaired_ones_are_gone :
+  let arr := {| kind := "Array"; truth := false; num_zero := false; bits_zero := false; is_nil := false; len_zero := true |} in
+  let mp := {| kind := "Map"; truth := false; num_zero := false; bits_zero := false; is_nil := false; len_zero := true |} in
+  let nz := {| kind := "Float64"; truth := false; num_zero := true; bits_zero := false; is_nil := false; len_zero := false |} in
+  let fn := {| kind := "Func"; truth := false; num_zero := false; bits_zero := false; is_nil := true; len_zero := false |} in
+  let ch := {| kind := "Chan"; truth := false; num_zero := false; bits_zero := false; is_nil := true; len_zero := false |} in
+  Forall (fun v => coherent v = true /\ named_exception Later v = true /\ omits Later v = Some (negb (std_empty v)) /\ omits First v = Some (std_empty v)) [fn; ch] /\
+  Forall (fun v => coherent v = true /\ omits Later v = Some true /\ omits First v = Some true /\ std_empty v = true) [arr; mp; nz].
+Proof. exact named_cases_differ. Qed.
